@@ -99,7 +99,7 @@ class Ctx:
         p = subprocess.run([exe] + args, capture_output=True, text=True, timeout=timeout, env=e)
         if check and p.returncode != 0:
             # a Go runtime abort ("fatal error: ...") is followed by a dump of every goroutine: keep its first line in the message
-            head = next((ln for ln in p.stderr.splitlines() if ln.startswith("fatal error:")), "")
+            head = next((ln[ln.index("fatal error:"):] for ln in p.stderr.splitlines() if "fatal error:" in ln), "")
             raise Infra("harness %s failed (%d): %s%s" % (args[:1], p.returncode, head + "\n" if head else "", p.stderr[-4000:]))
         return p
 
